@@ -2,6 +2,7 @@ package main
 
 import (
 	"go/ast"
+	"go/token"
 	"go/types"
 	"sort"
 )
@@ -135,6 +136,7 @@ func (w *World) buildCallGraph() {
 			strong(fi)
 		}
 	}
+	w.computeMutParams(all)
 	// transitive field-write sets (fixpoint)
 	w.modsets = direct
 	for changed := true; changed; {
@@ -182,4 +184,264 @@ func (w *World) modset(fi *FuncInfo) map[string]types.Type {
 // sameSCC reports whether a call from a to b stays inside a recursive component of the call graph.
 func (w *World) sameSCC(a, b *FuncInfo) bool {
 	return w.scc[a] == w.scc[b] && w.selfRec[a] && w.selfRec[b]
+}
+
+// computeMutParams finds, per function, the parameters whose container content is written in place (index assignment
+// or delete on the parameter itself, or passing it on to such a parameter of a callee).
+func (w *World) computeMutParams(all []*FuncInfo) {
+	w.mutParams = map[*FuncInfo]map[int]bool{}
+	paramIndex := func(fi *FuncInfo, v *types.Var) int {
+		sig := fi.Obj.Type().(*types.Signature)
+		for i := 0; i < sig.Params().Len(); i++ {
+			if sig.Params().At(i) == v {
+				return i
+			}
+		}
+		return -1
+	}
+	for _, fi := range all {
+		w.mutParams[fi] = map[int]bool{}
+	}
+	for changed := true; changed; {
+		changed = false
+		for _, fi := range all {
+			info := fi.Pkg.TypesInfo
+			// aliases: type-switch bindings and v2 := v.(T) name the same container as v
+			alias := map[*types.Var]*types.Var{}
+			ast.Inspect(fi.Decl.Body, func(n ast.Node) bool {
+				switch x := n.(type) {
+				case *ast.TypeSwitchStmt:
+					as, ok := x.Assign.(*ast.AssignStmt)
+					if !ok {
+						return true
+					}
+					src, ok := as.Rhs[0].(*ast.TypeAssertExpr).X.(*ast.Ident)
+					if !ok {
+						return true
+					}
+					sv, _ := info.ObjectOf(src).(*types.Var)
+					for _, cc := range x.Body.List {
+						if bv, ok := info.Implicits[cc].(*types.Var); ok && sv != nil {
+							alias[bv] = sv
+						}
+					}
+				case *ast.AssignStmt:
+					if len(x.Rhs) == 1 {
+						if ta, ok := x.Rhs[0].(*ast.TypeAssertExpr); ok {
+							if src, ok := ta.X.(*ast.Ident); ok {
+								if l, ok := x.Lhs[0].(*ast.Ident); ok {
+									lv, _ := info.ObjectOf(l).(*types.Var)
+									sv, _ := info.ObjectOf(src).(*types.Var)
+									if lv != nil && sv != nil {
+										alias[lv] = sv
+									}
+								}
+							}
+						}
+					}
+				}
+				return true
+			})
+			// a parameter that is reassigned (m = maps.Clone(m)) before a write no longer names the caller's container
+			reassignedAt := map[*types.Var]token.Pos{}
+			ast.Inspect(fi.Decl.Body, func(n ast.Node) bool {
+				if as, ok := n.(*ast.AssignStmt); ok {
+					for _, l := range as.Lhs {
+						if id, ok := l.(*ast.Ident); ok {
+							if v, ok := info.ObjectOf(id).(*types.Var); ok {
+								if p, seen := reassignedAt[v]; !seen || as.Pos() < p {
+									reassignedAt[v] = as.Pos()
+								}
+							}
+						}
+					}
+				}
+				return true
+			})
+			mark := func(x ast.Expr) {
+				id, ok := x.(*ast.Ident)
+				if !ok {
+					return
+				}
+				v, ok := info.ObjectOf(id).(*types.Var)
+				if !ok {
+					return
+				}
+				if p, ok := reassignedAt[v]; ok && p < x.Pos() {
+					return
+				}
+				for i := 0; i < 4; i++ {
+					if a, ok := alias[v]; ok {
+						v = a
+					}
+				}
+				if i := paramIndex(fi, v); i >= 0 && !w.mutParams[fi][i] {
+					w.mutParams[fi][i] = true
+					changed = true
+				}
+			}
+			ast.Inspect(fi.Decl.Body, func(n ast.Node) bool {
+				switch x := n.(type) {
+				case *ast.AssignStmt:
+					for _, l := range x.Lhs {
+						if ix, ok := l.(*ast.IndexExpr); ok {
+							mark(ix.X)
+						}
+					}
+				case *ast.CallExpr:
+					if id, ok := x.Fun.(*ast.Ident); ok {
+						if b, ok := info.Uses[id].(*types.Builtin); ok && b.Name() == "delete" && len(x.Args) > 0 {
+							mark(x.Args[0])
+						}
+					}
+					if c := w.calleeOfCall(x, info); c != nil {
+						for i := range w.mutParams[c] {
+							if i < len(x.Args) {
+								mark(x.Args[i])
+							}
+						}
+					}
+				}
+				return true
+			})
+		}
+	}
+}
+
+// returnsFreshObject: the function's pointer result is an object it allocates (NewDocument*, Clone, loadFile, ...).
+func (w *World) returnsFreshObject(fi *FuncInfo) bool {
+	if w.freshObj == nil {
+		w.freshObj = map[*FuncInfo]bool{}
+		for changed := true; changed; {
+			changed = false
+			for _, f := range w.Funcs {
+				if w.freshObj[f] {
+					continue
+				}
+				sig := f.Obj.Type().(*types.Signature)
+				if sig.Results().Len() == 0 || !isPtrToStruct(sig.Results().At(0).Type()) {
+					continue
+				}
+				info := f.Pkg.TypesInfo
+				fresh := map[*types.Var]bool{}
+				ok := true
+				nret := 0
+				ast.Inspect(f.Decl.Body, func(n ast.Node) bool {
+					switch x := n.(type) {
+					case *ast.FuncLit:
+						return false
+					case *ast.AssignStmt:
+						if len(x.Lhs) >= 1 && len(x.Rhs) == 1 {
+							if id, ok2 := x.Lhs[0].(*ast.Ident); ok2 {
+								if v, ok3 := info.ObjectOf(id).(*types.Var); ok3 && isPtrToStruct(v.Type()) {
+									fresh[v] = w.exprFreshObj(x.Rhs[0], info, fresh)
+								}
+							}
+						}
+					case *ast.ReturnStmt:
+						if len(x.Results) > 0 {
+							nret++
+							if id, isNil := x.Results[0].(*ast.Ident); isNil && id.Name == "nil" {
+								return true
+							}
+							if !w.exprFreshObj(x.Results[0], info, fresh) {
+								ok = false
+							}
+						}
+					}
+					return true
+				})
+				if ok && nret > 0 {
+					w.freshObj[f] = true
+					changed = true
+				}
+			}
+		}
+	}
+	return w.freshObj[fi]
+}
+
+func (w *World) exprFreshObj(x ast.Expr, info *types.Info, fresh map[*types.Var]bool) bool {
+	switch y := x.(type) {
+	case *ast.UnaryExpr:
+		_, ok := y.X.(*ast.CompositeLit)
+		return y.Op == token.AND && ok
+	case *ast.CallExpr:
+		if c := w.calleeOfCall(y, info); c != nil {
+			return w.freshObj[c]
+		}
+	case *ast.Ident:
+		if v, ok := info.ObjectOf(y).(*types.Var); ok {
+			return fresh[v]
+		}
+	}
+	return false
+}
+
+// ownWrites: struct fields a function writes on objects it did not allocate itself (directly or through callees),
+// with the object each write goes to (-1 receiver, i parameter i, -2 anything else).
+func (w *World) ownWrites(fi *FuncInfo) map[string]map[int]bool {
+	w.ownSummaries()
+	return w.ownW[fi]
+}
+
+// retSummary: the sources the tree-typed results of fi may share structure with.
+func (w *World) retSummary(fi *FuncInfo) ocls {
+	w.ownSummaries()
+	return w.retSum[fi]
+}
+
+// ownSummaries computes write sets and result summaries for all functions by iterating to a fixpoint
+// (start optimistic: nothing written, results fresh; every round can only add).
+func (w *World) ownSummaries() {
+	if w.ownW != nil {
+		return
+	}
+	w.ownW = map[*FuncInfo]map[string]map[int]bool{}
+	w.retSum = map[*FuncInfo]ocls{}
+	var all []*FuncInfo
+	for _, fi := range w.Funcs {
+		all = append(all, fi)
+		w.ownW[fi] = map[string]map[int]bool{}
+	}
+	sort.Slice(all, func(i, j int) bool { return all[i].Key < all[j].Key })
+	for round := 0; round < 12; round++ {
+		changed := false
+		for _, fi := range all {
+			a := &ownAnalyzer{w: w, fi: fi, info: fi.Pkg.TypesInfo, obs: map[string]*OwnOb{}, cFields: map[string]bool{}, writes: map[string]string{},
+				writeBases: map[string]map[int]bool{}}
+			st := &ownState{cls: map[*types.Var]ocls{}, shallow: map[*types.Var]bool{}, moved: map[string]token.Pos{}, freshP: map[*types.Var]bool{}}
+			sig := fi.Obj.Type().(*types.Signature)
+			for i := 0; i < sig.Params().Len() && i < 64; i++ {
+				p := sig.Params().At(i)
+				if !isTreeType(p.Type()) {
+					continue
+				}
+				if paramMode(fi.Contract, p.Name()) != "" {
+					st.cls[p] = ocls{dparams: 1 << uint(i)}
+				} else {
+					st.cls[p] = ocls{bparams: 1 << uint(i)}
+				}
+			}
+			a.block(fi.Decl.Body.List, st)
+			for k, bs := range a.writeBases {
+				if w.ownW[fi][k] == nil {
+					w.ownW[fi][k] = map[int]bool{}
+				}
+				for b := range bs {
+					if !w.ownW[fi][k][b] {
+						w.ownW[fi][k][b] = true
+						changed = true
+					}
+				}
+			}
+			if old := w.retSum[fi]; joinCls(old, a.retCls) != old {
+				w.retSum[fi] = joinCls(old, a.retCls)
+				changed = true
+			}
+		}
+		if !changed {
+			break
+		}
+	}
 }
